@@ -308,6 +308,10 @@ class Session:
             P[f"ngrids{d}"] = np.array([4, 3, 2][:d])
         ang = rng.uniform(0, 2 * np.pi, size=(T, N2))
         U = np.stack([np.cos(ang), np.sin(ang)], axis=2)
+        if rng.random() < 0.5:
+            # orientation vectors that are not of unit length (dipole moments mux muy straight from a dump): still just arrays that
+            # no analysis may touch
+            U = U * rng.uniform(0.5, 2.0, size=(T, N2, 1))
         P["orient2"] = gc.snapshots_from([gc.snapshot_from(self.cell2, None, np.ones(N2, dtype=int), 100 * t, positions=U[t]) for t in range(T)])
         P["pack_sig"] = np.array([[1.0, 1.2], [1.2, 1.4]]) * 0.9
         P["diam"] = {k: float(rng.uniform(0.8, 1.2)) for k in range(1, 4)}
